@@ -123,9 +123,14 @@ instance : (s : Sys π ν) → (ops : List (Op π ν)) → Decidable (s.SafeHist
     by unfold SafeHist; infer_instance
 
 /-- F29: the constructor does not call `_chk_name` -/
-def SafeInit (src : π) (rail : String) : Prop := rail ≠ nameOfC src
+def SafeInit (src : π) (rail : String) : Prop := rail = "" ∨ rail ≠ nameOfC src
 
 instance (src : π) (rail : String) : Decidable (SafeInit src rail) := by unfold SafeInit; infer_instance
+
+/-- F30: `add_comp(parent=[])` raises `IndexError` (`pidx[0]`), not `ValueError` -/
+def SafeErr : Op π ν → Prop
+  | .addComp (.many []) _ _ _ => False
+  | _ => True
 
 /-- which known pattern(s) the call falls under (for the driver's report) -/
 def unsafeWhy (s : Sys π ν) (op : Op π ν) : List String :=
